@@ -979,7 +979,11 @@ namespace awkward {
       return std::make_shared<NumpyArray>(tonum);
     }
     else {
-      ContentPtr next = content_.get()->num(posaxis, depth + 1);
+      // compact_offsets64 starts at zero, so the content has to start at offsets[0] too
+      ContentPtr trimmed = content_.get()->getitem_range_nowrap(
+        (int64_t)offsets_.getitem_at_nowrap(0),
+        (int64_t)offsets_.getitem_at_nowrap(offsets_.length() - 1));
+      ContentPtr next = trimmed.get()->num(posaxis, depth + 1);
       Index64 offsets = compact_offsets64(true);
       return std::make_shared<ListOffsetArray64>(Identities::none(),
                                                  util::Parameters(),
